@@ -467,6 +467,11 @@ def C15(m, rnd):
             continue
         want = (refmsg.seconds, refmsg.nanos)
         spec = C.dt_to_sn(v) if f.is_timestamp else C.td_to_sn(v)
+        if f.is_timestamp and v.utcoffset() is not None and v.utcoffset().microseconds:
+            # the reference's FromDatetime convenience takes the fraction from the local wall clock and so drops the
+            # sub-second part of a UTC offset; the pair "for the same instant" is the exact one
+            want = spec
+            refmsg.seconds, refmsg.nanos = spec
         if want != spec:
             col.add("harness:reference-vs-spec:%s-%s" % (ek, vc), "%s vs %s" % (want, spec))
         sub = getattr(r, f.name)
@@ -526,6 +531,9 @@ def _extra_enums():
         "DenseAlias": [("E0", 0), ("E1", 1), ("E1B", 1), ("E2", 2)],
         "Single": [("ONLY", 0)],
         "Underscored": [("_2D", 0), ("_3D", 1), ("FLAT", 0), ("_", 5)],     # pythonized names of e.g. DIMENSION_2D
+        # member names that contain another member's name behind the upper-snake class name / behind any prefix
+        "Kind": [("KIND_NONE", 7), ("NONE", 0), ("OTHER", 1), ("KIND_OTHER", 2), ("KIND", 3), ("KIND_KIND", 4)],
+        "PrefixOf": [("A", 0), ("AB", 1), ("A_B", 2), ("B", 3), ("ab", 4), ("Ab", 5)],
     }
     for name, decl in shapes.items():
         ns = {}
@@ -568,6 +576,11 @@ def _c20_undefined(col, E, decl):
         except Exception as e:
             col.add("undefined-number-try_value-raises%s" % tag, "%s.try_value(%d): %s" % (E.__name__, n, exc(e)))
         try:
+            if E.try_value(n) in E:
+                col.add("undefined-number-is-contained%s" % tag, "%s.try_value(%d) in %s is True" % (E.__name__, n, E.__name__))
+        except Exception as e:
+            col.add("contains-raises%s" % tag, "%s.try_value(%d) in %s: %s" % (E.__name__, n, E.__name__, exc(e)))
+        try:
             E(n)
             col.add("constructor-accepts-undefined-number%s" % tag, "%s(%d) did not raise" % (E.__name__, n))
         except ValueError:
@@ -578,6 +591,12 @@ def _c20_undefined(col, E, decl):
 
 def _c20_lookup(col, Color, decl):
     tag = "" if Color is C.Color else ":alias-shapes"
+    for name, num in decl:
+        try:
+            if getattr(Color, name) not in Color:
+                col.add("member-not-contained%s" % tag, "%s.%s in %s is False" % (Color.__name__, name, Color.__name__))
+        except Exception as e:
+            col.add("contains-raises%s" % tag, "%s.%s in %s: %s" % (Color.__name__, name, Color.__name__, exc(e)))
     canon = {}
     for name, num in decl:
         canon.setdefault(num, name)
